@@ -48,6 +48,7 @@ class SimCallback(object):
         self.cid = cid
         self.clone_of = clone_of
         self.armed = {}
+        self.owner = None     # the object this callback was registered on (None for library-made clones)
 
     def __deepcopy__(self, memo):
         w = _CUR[0]
@@ -168,6 +169,7 @@ class World(object):
         self.profile = profile or {}
         self.stats = {}
         self.halt = False
+        self.pending_owner = []
 
     # ------------------------------------------------------------------ bookkeeping
     def new_cid(self):
@@ -344,6 +346,8 @@ class World(object):
         k = self.slot_of(obj)
         if st is not None:
             st.cb_events.append((cb.cid, site, k))
+            if cb.owner is not None and cb.owner is not obj and 'foreign_cb' not in st.extra:
+                st.extra['foreign_cb'] = (cb.cid, site, k, self.slot_any(cb.owner))
         self.bump('cb_' + site)
         act = cb.armed.pop(site, None)
         if act is None:
@@ -585,10 +589,16 @@ class World(object):
             args['config'] = self.configs[op['cfg'] % len(self.configs)]
             st.extra['cfg'] = op['cfg'] % len(self.configs)
             self.bump('caller_config_used')
-        if op.get('dtype') is not None:
-            x = Fxp(None if val is None else V.carrier(val), dtype=op['dtype'], **args, **kw)
-        else:
-            x = Fxp(None if val is None else V.carrier(val), s, w, f, **args, **kw)
+        self.pending_owner = cbs
+        try:
+            if op.get('dtype') is not None:
+                x = Fxp(None if val is None else V.carrier(val), dtype=op['dtype'], **args, **kw)
+            else:
+                x = Fxp(None if val is None else V.carrier(val), s, w, f, **args, **kw)
+        finally:
+            self.pending_owner = []
+        for c in cbs:
+            c.owner = x
         self.finish_new(st, x)
 
     def op_new_from(self, st):
@@ -1403,7 +1413,10 @@ class World(object):
         o = self.obj(d)
         if o.callbacks is None:
             o.callbacks = []
-        o.callbacks.extend(self.make_cbs(int(op.get('n', 1))))
+        cbs = self.make_cbs(int(op.get('n', 1)))
+        for c in cbs:
+            c.owner = o
+        o.callbacks.extend(cbs)
 
     def op_cb_arm(self, st):
         """Arm one callback of a slot: at its next firing on `site` it raises (F3) or runs the
